@@ -102,7 +102,7 @@ FLAGS = ('searches', 'shares', 'uploads')
 CARRIERS = ('server', 'file', 'dist', 'legacy')
 VARIANTS = ('exact', 'exact', 'exact', 'exact', 'case', 'sep_double', 'sep_mixed', 'sep_trail', 'parent_alias',
             'other_alias', 'dotdot', 'unknown')
-DIR_FORMS = ('exact', 'exact', 'exact', 'parent_alias', 'case')
+DIR_FORMS = ('exact', 'exact', 'exact', 'parent_alias', 'case', 'sep_trail', 'sep_double', 'sep_mixed')
 CHANGE_OPS = ('friend', 'block', 'update', 'add', 'remove', 'rescan')
 
 
@@ -423,6 +423,12 @@ def corpus(tier):
                      q('u1', 'pub/inner/deep song.mp3', 'exact'), q('u1', 'pub/inner/secret demo.mp3', 'parent_alias'),
                      {'op': 'rescan', 'gap': 3.0}, search('u1', 'server', 'deep', gap=1.2)]
             out.append(_plan(three, steps, slots=1, exec={'delay_ms': [100, 400]}))
+    # 12. directory requests in every spelling, for an open and for locked directories (root and nested)
+    steps = []
+    for d in (['pub'], ['pub', 'live'], ['priv'], ['priv', 'rare'], ['grp', 'club']):
+        for form in ('exact', 'case', 'sep_trail', 'sep_double', 'sep_mixed', 'parent_alias'):
+            steps.append({'op': 'dir', 'user': 'u1', 'dir': d, 'form': form, 'gap': 0.05})
+    out.append(_plan(three, steps))
     # 8. requests racing a change (same instant, 50 ms)
     for gap in (0.0, 0.05):
         out.append(_plan(three, [search('u1', 'server', 'secret'), {'op': 'friend', 'user': 'u1', 'value': True, 'gap': gap},
@@ -865,6 +871,12 @@ def _run(world: World, plan):
             if form == 'case' and '\\' in name:
                 head, tail = name.split('\\', 1)
                 name = head + '\\' + tail.swapcase()
+            if form == 'sep_trail':
+                name = name + '\\'
+            elif form == 'sep_double':
+                name = name.replace('\\', '\\\\', 1) if '\\' in name else name + '\\\\'
+            elif form == 'sep_mixed':
+                name = name.replace('\\', '/') if '\\' in name else name + '/'
             rec['name'] = name
             if any(E.locked(timeline.current, user, f) for f in files if os.path.dirname(f) == d_abs):
                 nt['locked'] = True
